@@ -690,6 +690,7 @@ class HooksPlugin(Plugin):
         self.occ: Dict[Tuple[str, bool], List[Tuple[int, int]]] = {}
         self.last_alter = None
         self.armed: Dict[str, List[Tuple]] = {}
+        self.total_steps = sum(int(s_["iterationSteps"]) for s_ in mon.sessions_cfg)
         self.sesb_seen = set()
         self.stb_seen = set()
         self.name2market = dict(mon.sim.name2market)
@@ -759,10 +760,14 @@ class HooksPlugin(Plugin):
             self._occ("session", True, obj.session_start_time, -1)
         elif kind == "session_after":
             self._occ("session", False, obj.session_start_time + obj.iteration_steps - 1, -1)
-        elif kind == "market_before":
-            self._occ("market", True, obj.get_time(), obj.market_id)
-        elif kind == "market_after":
-            self._occ("market", False, obj.get_time(), obj.market_id)
+
+
+    def post_tick(self, mon, market, mm, t):
+        # without a logger the market steps are counted from the clock itself (every market takes every step),
+        # not from hooks - the harness's own taps are hooks and would share a dispatch fault
+        if not mon.retain and 0 <= t < self.total_steps:
+            self._occ("market", True, t, market.market_id)
+            self._occ("market", False, t, market.market_id)
 
     def on_step_record(self, mon, log, code):
         m = log.market
